@@ -161,7 +161,7 @@ def check_determinism(run, case):
     names = []
     try:
         digs = []
-        for hs in ('1', '987654'):
+        for hs in ('1', '987654', '31337'):
             nm = f'det_{os.getpid()}_{hs}'
             names.append(nm)
             out, err, rc, to = cli.run_cli('trainer.py', ['-r', nm, '-t', tf, '-e', case['encoding'], '-c', str(case['coverage']), '-n', str(case['ngram']),
@@ -171,9 +171,9 @@ def check_determinism(run, case):
             if not os.path.exists(os.path.join(p, 'Grammar', 'grammar.txt')):
                 run.inconc('CLI training did not complete'); return
             digs.append(tree_digest(p))
-        if digs[0] != digs[1]:
-            diff = [k for k in set(digs[0]) | set(digs[1]) if digs[0].get(k) != digs[1].get(k)]
-            run.violation(f'two trainings of the same list/options differ in {sorted(diff)[:5]}', case, observed=sorted(diff)); return
+        if not (digs[0] == digs[1] == digs[2]):
+            diff = [k for d_ in digs[1:] for k in set(digs[0]) | set(d_) if digs[0].get(k) != d_.get(k)]
+            run.violation(f'three trainings of the same list/options (different PYTHONHASHSEED) differ in {sorted(diff)[:5]}', case, observed=sorted(diff)); return
         run.ev('determinism_pairs')
         # the in-process driver used by the other trainer-side checks must produce what the real CLI produces
         if case['max_len'] == 21:
@@ -257,10 +257,17 @@ def run(run, rng):
     run.required_events = ['SEGMENTED', 'lists_compared', 'rulesets_compared', 'determinism_pairs', 'retrainings_compared']
     run.min_distinct = 10
     run.assumptions = ['tallies are computed by the harness from the section lists handed to base_structure_creation (C05 checks those)',
-                       'e-mail provider / website host lists are not re-derived (only their existence is checked)',
+                       'e-mail provider / website host lists are compared with what the two detectors reported per password (recorded at their call in the parser)',
                        'count/total compared with relative tolerance 1e-12']
     for i in range(N[run.tier]):
-        run.guard(gen_case(rng), check_case, det=(i < DET[run.tier]), seconds=240)
+        case = gen_case(rng)
+        det = i < DET[run.tier]
+        if det and i % 2 == 0:
+            # determinism under different hash seeds is most at risk where sets / dicts of several distinct items are written: make sure the list holds
+            # several distinct unsupported structures (e-mail, website, e-mail + digits ...) and several tied counts
+            case['items'] = case['items'][:4] + [[e, 1] for e in trainlists.EMAILS[:2] + trainlists.SITES[:2]] + [['bob@gmail.com123', 1], ['!www.google.com', 1], ['x@y.org!', 1]]
+            case['items'] = [[p, k] for p, k in case['items'] if trainlists.encodable(p, case['encoding'])]
+        run.guard(case, check_case, det=det, seconds=240)
     for i in range(3 if run.tier == 'quick' else 40):
         run.guard(gen_retrain_case(rng), check_retrain, seconds=240)
 
